@@ -1,5 +1,5 @@
 /-
-  Run-time library of the translator's NUMBER-POLYMORPHIC kinds `funcn` / `regionn` (work package k19; see
+  Run-time library of the translator's NUMBER-POLYMORPHIC kind `funcn` (work package k19; see
   /verif/translator/ext_k19.go): Go functions that compute with float64 are regenerated over an ABSTRACT number type
   `F` with a structure of operations `ops : NumOps F`, in the source's operand order and association.
 
